@@ -58,8 +58,8 @@ fn main() {
             wall_cap_s: envu("VERIF_WALL_CAP", 1500),
         }),
         "C08" => ptree::run(&ptree::Config {
-            depth_small: if thorough { 64 } else { 4 },
-            depth_large: if thorough { envu("VERIF_C08_DEPTH", 6) as usize } else { 3 },
+            depth_small: if thorough { 64 } else { 6 },
+            depth_large: if thorough { envu("VERIF_C08_DEPTH", 6) as usize } else { 4 },
             state_cap: envu("VERIF_STATE_CAP", if thorough { 6_000_000 } else { 400_000 }),
             wall_cap_s: envu("VERIF_WALL_CAP", if thorough { 1500 } else { 100 }),
             rich: thorough,
